@@ -31,7 +31,7 @@ P("C06", "other", True, KB,
   "Alias/freshness facts of NumPy (view vs copy) are assumed per DESIGN.md 3.3.",
   "P: INPLACE obligations from the frame analyser; B: bounded/c06.py.", extra="INPLACE")
 P("C07", "other", True, KB,
-  "Proved (all inputs): the six distance kernels equal the metric fold per pair (rp variants symmetric with zero diagonal), the embedding kernels realise emb[k,j]=x[k+j*tau] within bounds, the adaptive-neighbourhood kernel only switches entries on and keeps symmetry, the bootstrap kernels are index safe; on the Python side (py_mode VCs with NumPy mask semantics) set_fixed_threshold of RecurrencePlot / CrossRecurrencePlot marks exactly the pairs with distance < threshold (never a missing-value state), the recurrence network's adjacency is R with exactly the diagonal cleared, and each distance method hands the embedding to its kernel with matching shapes. Bounded: every class/option against direct thresholding of float64 distances.",
+  "Proved (all inputs): the six distance kernels equal the metric fold per pair (rp variants symmetric with zero diagonal), the embedding kernels realise emb[k,j]=x[k+j*tau] within bounds, the adaptive-neighbourhood kernel only switches entries on and keeps symmetry, the bootstrap kernels are index safe; on the Python side (py_mode VCs with NumPy mask semantics) set_fixed_threshold of RecurrencePlot / CrossRecurrencePlot marks exactly the pairs with distance < threshold (never a missing-value state), the recurrence network's adjacency is R with exactly the diagonal cleared, each distance method hands the embedding to its kernel with matching shapes, the joint recurrence plot is R_x[i,j]*R_y[i+lag,j+lag] of size N-|lag| (roles exchanged for negative lags; fixed-threshold and fixed-rate variants, helper methods of the class inlined) and the inter-system recurrence matrix is the block matrix [[R_x, CR_xy],[CR_xy^T, R_y]] (py_mode VCs with n-d views, block stores and transposes). Bounded: every class/option against direct thresholding of float64 distances.",
   "Thresholding / rate logic lives in NumPy code checked by the bounded layer.",
   "P: DIST/EMBED kernel specs; B: bounded/c07.py.", notdec=["NaN arithmetic beyond the supremum-kernel facts"])
 P("C08", "proof", True, KB,
